@@ -101,3 +101,17 @@ package cmap
 //@     invariant start <= idx && idx <= end && end <= 65536 && 0 <= k && k < segCount && len(endCode) == segCount && len(startCode) == segCount && len(idDelta) == segCount && len(idRangeOffset) == segCount && cmap != nil && code2rune != nil && prevEnd <= 65536
 //@     invariant 0 <= d && d + (end - start) <= len(glyphIDArray)
 //@     decreases end - idx
+
+// Table.Get (assumed, used by sfnt.Font.Subset): decodes the subtable stored
+// under a key.  decodes(d) abstracts "the bytes d decode to a subtable",
+// all412(t) "every subtable of t is a format 4 or format 12 subtable".
+//@ ghost decodes(d []byte) bool
+//@ ghost all412(t Table) bool
+//@ assume func (ss Table) Get(key Key) (sub Subtable, err error)
+//@   ensures err == nil ==> has(ss, key) && sub != nil
+//@   ensures has(ss, key) && decodes(ss[key]) && (key.PlatformID != 1 || key.EncodingID == 0) ==> err == nil
+//@   ensures err == nil && all412(ss) ==> is(sub, Format4) || is(sub, Format12)
+//@   modifies nothing
+//@ assume func (s Subtable) Encode(language uint16) (res []byte)
+//@   ensures res != nil && fresh(res)
+//@   modifies nothing
